@@ -79,6 +79,12 @@ static LCase case_from_plan(const Plan &p) {
   }
   if (c.deg == D_CONST_Y && ny > 1 && r.chance(0.5)) for (int i = 0; i < n; i++) c.Y[i][1] = (double)r.range(-4, 4);  // one constant, one informative response
   if (c.rt == T_KMEANS && c.deg == D_DUP_POINTS) { int distinct = (int)p.geti("distinct", 2); Mat base = int_lowrank(r, distinct, pp, pp + 1); for (int i = 0; i < n; i++) c.X[i] = base[i % distinct]; }
+  if (p.has("unit_pow2")) {
+    double u = ldexp(1.0, (int)p.geti("unit_pow2")), uy = ldexp(1.0, (int)p.geti("yunit_pow2", 0));
+    for (Mat *M : {&c.X, &c.Xr}) for (auto &row : *M) for (double &v : row) v *= u;
+    for (auto *L : {&c.blocks, &c.blocksr}) for (auto &B : *L) for (auto &row : B) for (double &v : row) v *= u;
+    for (Mat *M : {&c.Y, &c.Yr}) for (auto &row : *M) for (double &v : row) v *= uy;
+  }
   return c;
 }
 
@@ -180,6 +186,8 @@ struct HLive : Harness {
     p.seti("scaling", rt == T_CPCA ? (int)wr.range(0, 3) : (int)wr.range(-1, 3)); p.seti("yscaling", (int)wr.range(0, 1));
     p.seti("perturb_k", wr.chance(0.25) ? (int)wr.range(20, 45) : 0);
     p.setu("data.seed", wr.next() >> 4);
+    // unit of the data: an exact power of two (the degenerate structure stays exact), 1e-6 .. 1e6; responses get their own
+    if (wr.chance(0.3)) { p.seti("unit_pow2", (int)wr.range(-20, 20)); p.seti("yunit_pow2", wr.chance(0.5) ? 0 : (int)wr.range(-20, 20)); }
     return p;
   }
 
@@ -190,6 +198,7 @@ struct HLive : Harness {
     o.cfg = cfg;
     o.counters[std::string("routine.") + rt_name[c.rt]]++;
     o.counters[std::string("degeneracy.") + deg_name[c.deg]]++;
+    if (p.has("unit_pow2")) o.counters[p.geti("unit_pow2") < -6 ? "probe.small_unit" : p.geti("unit_pow2") > 6 ? "probe.large_unit" : "probe.unit_near_one"]++;
     sim_cfg sc; std::vector<sim_switch> rs; cfg_from_plan(p, sc, rs); sc.detect_races = 0;
     sim_begin_run(&sc);
     Hasher h;
